@@ -29,10 +29,13 @@
     the holdings of calls in flight — is still allocated afterwards (bits set / marker kept), so
     it can be freed at its order; every other frame is free exactly if its bit says so.
 
-  PARTIAL: the same for crashes inside upper-level calls (tree counters and reservations are
-  volatile and rebuilt by `Trees::new`, so only the interleaving of lower-level accesses matters,
-  but the call sequences the upper level issues — including partial frees of huge allocations,
-  K1 — are not covered by the theorem). Explored by the crash oracle of the trace co-simulation: before every atomic
+  * `conc_crash_anywhere_public_api` — the same for threads at the public interface
+    (`LLFree::get` on every path, `LLFree::put` of held blocks at allocation order), from any
+    contents of the volatile arrays: every reachable state recovers to the full lower invariant
+    with all holdings kept.
+
+  PARTIAL: call sequences that free a *part* of a huge allocation (`partial_put_huge`, K1) are
+  not covered by the all-interleavings theorems. Explored by the crash oracle of the trace co-simulation: before every atomic
   write to the persistent buffer, of every explored schedule, the buffer is copied and recovered
   with the real code (held blocks allocated and freeable at their order, counts agree, at most
   the in-flight calls' frames missing), and by recover-at-quiescent-points in the sequential
@@ -40,6 +43,7 @@
 -/
 import LLFreeV.Proofs.EndToEnd
 import LLFreeV.Proofs.OwnLowerThreads
+import LLFreeV.Proofs.OwnUpperThreads
 namespace LLFree.C05
 open LLFree
 
@@ -137,6 +141,17 @@ theorem conc_crash_anywhere_recovers (c : Cfg) (ok : GeomOk16 c.geom) (m : Mem) 
           (∀ k f, (ghs k).ownS f = true → m''.bit f = true) ∧
           (∀ k h, (ghs k).ownH h = true → Huge.isHuge (m''.hugeE h) = true)) :=
   lower_crash_anywhere_recovers ok m inv ht n retries cmds sched hsched
+
+/-- **Crash at any instant of any interleaving of public-interface calls, then recovery.** -/
+theorem conc_crash_anywhere_public_api (c : Cfg) (ok : GeomOk16 c.geom) (m : Mem) (inv : LowerInv c m) (ht : m.trees.size = c.ntrees)
+    (n : Nat) (cmds : Nat → List UCmd) (sched : List Nat) (hsched : ∀ k ∈ sched, k < n) :
+    ∃ ghs, ConcFacts c.geom c.frames (concRun sched (m, fun k => Th.at (runU c (cmds k) ⟨[], []⟩))).1 ghs ∧
+      Runs (concRun sched (m, fun k => Th.at (runU c (cmds k) ⟨[], []⟩))).1
+        (Lower.recover c.geom c.ntrees c.nhuge) (fun _ m'' => LowerInv c m'' ∧
+          (∀ k f, (ghs k).ownS f = true → m''.bit f = true) ∧
+          (∀ k h, (ghs k).ownH h = true → Huge.isHuge (m''.hugeE h) = true)) := by
+  obtain ⟨ghs, h1, _, h3⟩ := upper_threads_safe ok m inv ht n cmds sched hsched
+  exact ⟨ghs, h1, h3⟩
 
 /-- in every state of every interleaving a counter is at most the number of zero bits of its
     bitfield, and a whole-huge marker sits on an empty bitfield: recovery only ever has to
